@@ -45,6 +45,13 @@ impl Deduplicator {
             result.push(op);
         }
 
+        // An op emitted before a rewrite was recorded may still name the duplicate's slot
+        // (e.g. a `Public` op whose output is aliased to a later duplicate's output).
+        // Re-apply the final map so that slot stays tied to the canonical one.
+        for op in &mut result {
+            op.apply_witness_rewrite(&self.rewrite);
+        }
+
         (result, self.rewrite)
     }
 
